@@ -936,6 +936,71 @@ def check_enclosed(recipe, ctx):
 
 
 
+# ---------------------------------------------------------------------------
+# alternatives of a Match list / dict pattern: an item that failed an earlier alternative and then matched a later
+# one is done with; only the alternatives of the item that was finally rejected belong to the error
+
+class NameEnds(object):
+    """predicate with an address-free repr: the name of a Named item ends with the given letter"""
+    def __init__(self, letter):
+        self.letter = letter
+        self.__name__ = 'ends_' + letter
+
+    def __call__(self, t):
+        return getattr(t, 'name', str(t)).endswith(self.letter)
+
+    def __repr__(self):
+        return 'ends_' + self.letter
+
+
+def gen_matchalts(draw):
+    S_ = st.sampled_from
+    return {'shape': draw(S_(['list', 'list', 'dict'])), 'good_before': draw(S_([1, 1, 2, 3])), 'wrap': draw(S_(['none', 'coalesce', 'tuple'])),
+            'first_alt': draw(S_(['literal', 'type']))}
+
+
+def check_matchalts(recipe, ctx):
+    from glom import Regex
+    n_good = recipe['good_before']
+    good = ['good%d_a' % i for i in range(n_good)]
+    if recipe['shape'] == 'list':
+        target = [Named(g) for g in good] + [Named('bad_b')]
+        first = 'never-equal' if recipe['first_alt'] == 'literal' else int
+        pattern = [first, NameEnds('a')]
+        stale_values = list(good)
+    else:
+        target = dict((g, 1) for g in good)
+        target['bad_b'] = 2
+        pattern = {Regex('zzz.*'): int, str: M == 1}
+        stale_values = ["'%s'" % g for g in good]
+    spec = Match(pattern)
+    if recipe['wrap'] == 'coalesce':
+        spec = Coalesce(spec, 'missing_alt')
+    elif recipe['wrap'] == 'tuple':
+        spec = (T, spec)
+    where = 'glom(%r, %r)' % (target, spec)
+    try:
+        glom.glom(target, spec)
+        raise HarnessBug('match pattern does not fail')
+    except HarnessBug:
+        raise
+    except GlomError as e:
+        text = str(e)
+    lines = text.split('\n')
+    parsed = [p_ for p_ in (parse_line(l) for l in lines[2:]) if p_ is not None]
+    targets = [p_[3] for p_ in parsed if p_[2] == 'Target']
+    for sv in stale_values:
+        if sv in targets:
+            raise Mismatch('stale-spec-line', '%s: the item %s matched (after failing an earlier alternative) and has no part in the '
+                           'error, but the trace lists it with the alternative it failed:\n%s' % (where, sv, text))
+    if not any(('bad_b' in t_) for t_ in targets):
+        raise Mismatch('innermost-target', '%s: the rejected item is not shown:\n%s' % (where, text))
+    ctx.label('shape-' + recipe['shape'], 'wrap-' + recipe['wrap'])
+    ctx.nontrivial(True)
+    ctx.outcome([recipe['shape'], n_good])
+
+
+
 def is_call_args_lazy(recipe, mm):
     """known finding F36: Call(f, args=(Iter(sub),)) - the arguments are evaluated in a finished, unchained scope between
     the Call and the Iter, so a failure raised while f consumes the stream is never recorded on the way up"""
@@ -948,6 +1013,7 @@ SUBS = [
     Sub('trace', check, gen=gen, quick=3000, thorough=10000,
         floors={'branch-point': 0.1, 'recovered-branch': 0.1, 'depth-3': 0.05, 'linear-exact': 0.1, 'target-contains-itself': 0.01, 'exception-with-own-str': 0.03}),
     Sub('lazy', check_lazy, gen=gen_lazy, quick=800, thorough=3000, floors={'steps-between': 0.2, 'lazy-map': 0.05, 'fails-after-consumer': 0.15}),
+    Sub('matchalts', check_matchalts, gen=gen_matchalts, quick=300, thorough=1000),
     Sub('enclosed', check_enclosed, gen=gen_enclosed, quick=400, thorough=1500),
     fuzzrun.fuzz_sub('fuzz-trace', 'hyp:c05:trace', runs=30000, campaigns=4, replay_sub='trace'),
 ]
